@@ -393,6 +393,41 @@ int main(int argc, char** argv) {
       g_log_stress = false;
       fprintf(g_out, "{\"e\":\"SEnd\"}\n");
       ++beh;
+    } else if (tag == "H") {
+      // shared-value hammer: nth threads use ONE loaded zone value concurrently, each thread staying in its own
+      // neighbourhood of the time line (so that the zone's internal lookup shortcuts keep being invalidated by
+      // the others); every answer must equal the single-threaded reference
+      int nth, iters;
+      is >> nth >> iters;
+      drain(K);
+      g_controlled = false;
+      long ops = 0, badn = 0;
+      if (!g_ref.ts.empty()) {
+        time_zone tz;
+        load_time_zone("REF/a", &tz);
+        std::atomic<int> go(0);
+        std::atomic<long> bad(0), done(0);
+        std::vector<std::thread> ths;
+        size_t nref = g_ref.ts.size();
+        for (int i = 0; i < nth; ++i) {
+          ths.emplace_back([&, i]() {
+            while (!go.load()) std::this_thread::yield();
+            size_t a = (size_t)i % nref, b = ((size_t)i * 7 + 3) % nref;
+            long lb = 0;
+            for (int j = 0; j < iters; ++j) {
+              size_t k = (j & 1) ? a : b;
+              auto tp = std::chrono::time_point<std::chrono::system_clock, seconds>(seconds(g_ref.ts[k]));
+              if (j & 2) { auto al = tz.lookup(tp); if (al.cs != g_ref.cs[k] || al.offset != g_ref.off[k]) ++lb; }
+              else { if (tz.lookup(g_ref.cs[k]).pre.time_since_epoch().count() != g_ref.pre[k]) ++lb; }
+            }
+            bad += lb; done += iters;
+          });
+        }
+        go.store(1);
+        for (auto& th : ths) th.join();
+        ops = done.load(); badn = bad.load();
+      }
+      fprintf(g_out, "{\"e\":\"SHammer\",\"threads\":%d,\"ops\":%ld,\"bad\":%ld}\n", nth, ops, badn);
     } else if (tag == "TW") {
       int nth; is >> nth;
       std::unique_lock<std::mutex> lk(G);
